@@ -257,6 +257,24 @@ type c01Case struct {
 	Seed   int64     `json:"seed"`
 }
 
+// c01Bystander: while the connection under test is open, the same process performs another,
+// unrelated handshake on a server with the same mode, with a client that asks for the opposite
+// context-takeover parameters (and closes that connection at once). What was negotiated on one
+// connection is not changed by handshakes of another.
+func c01Bystander(cs c01Case) {
+	if cs.Cfg.Via != "handshake" || len(cs.Msgs) < 2 {
+		return
+	}
+	offer := "permessage-deflate; client_no_context_takeover; server_no_context_takeover"
+	if cs.Cfg.ServerMode == "no-context-takeover" {
+		offer = "permessage-deflate"
+	}
+	a := c14Accept([]string{offer}, cs.Cfg.ServerMode, false)
+	if a.conn != nil {
+		a.conn.CloseNow()
+	}
+}
+
 func c01Sizes(thorough bool) []int {
 	var s []int
 	add := func(lo, hi int) {
@@ -790,6 +808,9 @@ func c01One(c *fw.Ctx, cs c01Case) {
 				return
 			}
 			kept = append(kept, g)
+			if i == 0 {
+				c01Bystander(cs)
+			}
 		}
 	} else {
 		for i := range cs.Msgs {
@@ -798,6 +819,7 @@ func c01One(c *fw.Ctx, cs c01Case) {
 			}
 		}
 		c01Shape(link.pending(wside), &shape)
+		c01Bystander(cs)
 		for i := range cs.Msgs {
 			g, ok := recv(i, false)
 			if !ok || !check(i, g) {
@@ -1097,4 +1119,45 @@ func init() {
 	fw.Register(fw.Part{Prop: "C01", Name: "window",
 		Units:  func(tier string) []fw.Unit { return fw.Shards("sequences", 16, c01WindowRun) },
 		Replay: c01Replay})
+}
+
+// ---------------------------------------------------------------- part bystander
+
+// Each unit is one process and one case: a connection obtained through the real
+// handshake carries a message, the process performs an unrelated handshake with
+// the opposite context-takeover parameters on a server of the same mode
+// (c01Bystander), and the connection carries two more messages with the same
+// content (they refer back to the first if a context is kept). A unit per case,
+// because state shared between handshakes would be changed by the first bystander
+// of the process for good.
+func c01BystanderCases() []c01Case {
+	var out []c01Case
+	m := func(n int) c01Msg { return c01Msg{Type: "text", Len: n, Content: "text37", API: "write"} }
+	for _, mode := range []string{"context-takeover", "no-context-takeover"} {
+		for _, dir := range c01Dirs {
+			cf := c01Config{Via: "handshake", ClientMode: mode, ServerMode: mode, Threshold: 1}
+			out = append(out, c01Case{Cfg: cf, Dir: dir, Msgs: []c01Msg{m(900), m(901), m(902)}, Reader: "read", Sched: "alternate", Seed: 1})
+		}
+	}
+	return out
+}
+
+func init() {
+	fw.Register(fw.Part{
+		Prop: "C01", Name: "bystander",
+		Units: func(tier string) []fw.Unit {
+			var us []fw.Unit
+			for i, cs := range c01BystanderCases() {
+				cs := cs
+				us = append(us, fw.Unit{ID: fmt.Sprintf("case-%d", i), Run: func(c *fw.Ctx) {
+					c01One(c, cs)
+					c.AddStates(1)
+					c.Bound("bystander_cases", len(c01BystanderCases()))
+					c.Sample(cs)
+				}})
+			}
+			return us
+		},
+		Replay: c01Replay,
+	})
 }
